@@ -123,13 +123,16 @@ theorem or_abs (k : KState) (h : k.toV.Inv) (o : List PyKey) :
   unfold KState.or
   rw [ofList_abs, List.map_append, iterObjs_canon k h]
 
+theorem mem_ofList_abs (o : List PyKey) (x : Label) : x ∈ (ofList o).toV.abs ↔ x ∈ o.map canon := by
+  rw [(ofList_factors o).1]; exact VState.ofList_mem (o.map canon) x
+
 theorem sub_filter (k : KState) (h : k.toV.Inv) (o : List PyKey) :
-    (k.iterObjs.filter fun x => !(memO o x)).map canon = k.toV.abs.filter fun x => !decide (x ∈ o.map canon) := by
+    (k.iterObjs.filter fun x => !((ofList o).count x)).map canon = k.toV.abs.filter fun x => !decide (x ∈ o.map canon) := by
   rw [← iterObjs_canon k h]
   apply filter_canon
   intro x
   congr 1
-  rw [Bool.eq_iff_iff, memO_iff]; simp
+  rw [Bool.eq_iff_iff, count_iff_mem _ (ofList_factors o).2, mem_ofList_abs]; simp
 
 /-- `self - other`: exactly the labels of `self` not in `other`, in the order of `self` -/
 theorem sub_abs (k : KState) (h : k.toV.Inv) (o : List PyKey) :
@@ -139,21 +142,28 @@ theorem sub_abs (k : KState) (h : k.toV.Inv) (o : List PyKey) :
   rw [ofList_abs, sub_filter k h, LSpec.extend_nil_nodup]
   exact (VState.abs_nodup k.toV h).sublist List.filter_sublist
 
-/-- `self ^ other`: the labels of `self` not in `other`, then the labels of `other` not in `self` -/
+/-- `self ^ other`: the labels of `self` not in `other`, then the labels of `other` (first occurrences, in order)
+    not in `self` -/
 theorem xor_abs (k : KState) (h : k.toV.Inv) (o : List PyKey) :
     (k.xor o).toV.Inv ∧
     (k.xor o).toV.abs = (LSpec.extend []
       (((k.toV.abs.filter fun x => !decide (x ∈ o.map canon)) ++
-        (LSpec.extend [] (((o.map canon).filter fun x => !decide (x ∈ k.toV.abs)).map some) true).1).map some) true).1 := by
+        ((LSpec.extend [] ((o.map canon).map some) true).1.filter fun x => !decide (x ∈ k.toV.abs))).map some) true).1 := by
   refine ⟨(ofList_factors _).2, ?_⟩
   unfold KState.xor
-  have e : (o.filter fun x => !(k.count x)).map canon = (o.map canon).filter fun x => !decide (x ∈ k.toV.abs) := by
+  have hO := (ofList_factors o).2
+  have e : ((ofList o).iterObjs.filter fun x => !(k.count x)).map canon
+      = (LSpec.extend [] ((o.map canon).map some) true).1.filter fun x => !decide (x ∈ k.toV.abs) := by
+    rw [← ofList_abs, ← iterObjs_canon _ hO]
     apply filter_canon
     intro x
     congr 1
     rw [Bool.eq_iff_iff, count_iff_mem k h]; simp
+  have hnd : ((LSpec.extend [] ((o.map canon).map some) true).1.filter fun x => !decide (x ∈ k.toV.abs)).Nodup := by
+    rw [← ofList_abs]
+    exact (VState.abs_nodup _ hO).sublist List.filter_sublist
   rw [ofList_abs, List.map_append, iterObjs_canon _ (sub_abs k h o).1, (sub_abs k h o).2,
-    iterObjs_canon _ (ofList_factors _).2, ofList_abs, e]
+    iterObjs_canon _ (ofList_factors _).2, ofList_abs, e, LSpec.extend_nil_nodup _ hnd]
 
 end KState
 
